@@ -523,8 +523,8 @@ impl Compress {
     }
 
     /// Compress a name starting at `offset` using the suffix dictionary `dict`
-    /// `base_offset` is an additional offset added to the location stored in
-    /// the dictionary. This function assumes that the input is trusted and
+    /// `_base_offset` is kept for API compatibility: the dictionary records
+    /// positions in `compressed`, which already accounts for it. This function assumes that the input is trusted and
     /// uncompressed, and doesn't perform any checks. Returns the length of
     /// the name as well as the location right after the uncompressed name.
     pub fn copy_compressed_name_with_base_offset(
@@ -532,7 +532,7 @@ impl Compress {
         compressed: &mut Vec<u8>,
         packet: &[u8],
         mut offset: usize,
-        base_offset: usize,
+        _base_offset: usize,
     ) -> CompressedNameResult {
         let uncompressed_name_len = Compress::raw_name_len_after_decompression(packet, offset);
         let initial_compressed_len = compressed.len();
